@@ -1557,22 +1557,28 @@ impl World {
                 max_a = ya;
                 max_b = yb;
             }
-            if slack == 2 {
-                if *from_a {
-                    max_a = ya.saturating_sub(1);
-                } else {
-                    min_a = xa.saturating_add(1);
+            match slack {
+                2 => {
+                    if *from_a {
+                        max_a = ya.saturating_sub(1);
+                    } else {
+                        min_a = xa.saturating_add(1);
+                    }
                 }
+                // the maxima bind in BOTH net directions (deposit + fee of the new range), the minima on the withdrawal
+                3 => max_a = ya.saturating_sub(1),
+                4 => max_b = yb.saturating_sub(1),
+                5 => min_b = xb.saturating_add(1),
+                _ => {}
             }
         }
-        let tight = slack == 2 && expect.is_some() && {
-            let ((_, _, from_a), _) = expect.unwrap();
-            let (da, _, ia, _) = ref_full.clone().unwrap();
-            if from_a {
-                ia.saturating_add(expect.unwrap().0 .1) > max_a
-            } else {
-                da - fee_of(ba, ma, da) < min_a
+        let tight = match (&ref_full, &expect) {
+            (Ok((da, db, ia, ib)), Some(((_, fa, from_a), (_, fb, from_b)))) => {
+                let (xa, xb) = (da - fee_of(ba, ma, *da), db - fee_of(bb, mb, *db));
+                let (ya, yb) = (ia.saturating_add(if *from_a { *fa } else { 0 }), ib.saturating_add(if *from_b { *fb } else { 0 }));
+                xa < min_a || xb < min_b || ya > max_a || yb > max_b
             }
+            _ => false,
         };
         // ---- fixture
         let t22a = t[7] != "65535";
